@@ -45,3 +45,19 @@ Theorem C04_mac_only_altered_partial :
     client_login_finish CS st pw (with_mac r mac') ctx ids ksf = Err EInvalidLogin.
 Proof. exact @mac_only_altered_rejected. Qed.
 Print Assumptions C04_mac_only_altered_partial.
+
+(* (iii) a response accepted by a client whose MAC field equals the MAC of an honest server session has that
+   session's transcript - hence that session's evaluation element, masking nonce, masked credentials, server
+   nonce and ephemeral key, and the session was started on this client's own request - or an HMAC / hash
+   collision is exhibited.  (Every single-byte alteration outside the MAC field, every splice of fields
+   between honest responses and every re-randomised non-MAC field is of this form.) *)
+From OKE Require Import Laws Bad Matching.
+Theorem C04_same_mac_same_response_partial :
+  forall E Sc Pk Sk (CS : Suite E Sc Pk Sk), HashLaws (hash CS) ->
+  forall a b c pre sk km2 km3 hs a' b' c' pre' sk' km2' km3' hs',
+    derive_3dh_keys CS a b c (h_hash (hash CS) pre) = Ok (sk, km2, km3, hs) ->
+    derive_3dh_keys CS a' b' c' (h_hash (hash CS) pre') = Ok (sk', km2', km3', hs') ->
+    h_hmac (hash CS) km2 (h_hash (hash CS) pre) = h_hmac (hash CS) km2' (h_hash (hash CS) pre') ->
+    (pre = pre' /\ (a ++ b ++ c = a' ++ b' ++ c')%list /\ sk = sk' /\ km3 = km3') \/ Bad (hash CS).
+Proof. exact @equal_server_mac_equal_transcript. Qed.
+Print Assumptions C04_same_mac_same_response_partial.
